@@ -968,3 +968,51 @@ Proof.
   rewrite E, mid_stmt_src_value. rewrite (mid_stmt_checks t st n t false I1 I2 V).
   exact (midset_copy t st n t V).
 Qed.
+
+(* ------------------------------------------------------------------ storing when memory is short *)
+
+Lemma store_mem_spec f0 f1 l :
+  ((255 < length l)%nat -> store_mem f0 f1 l = Err STRING_TOO_LONG) /\
+  ((length l <= 255)%nat -> f0 <= zlen l -> f1 <= zlen l -> store_mem f0 f1 l = Err OUT_OF_STRING_SPACE) /\
+  ((length l <= 255)%nat -> zlen l < f0 \/ zlen l < f1 -> store_mem f0 f1 l = Ok l).
+Proof.
+  unfold store_mem, strfn_store_check, strfn_check_free, zlen.
+  repeat split; intros.
+  - destruct (Z.gtb (Z.of_nat (length l)) 255) eqn:E; [reflexivity|lia].
+  - destruct (Z.gtb (Z.of_nat (length l)) 255) eqn:E; [lia|]. cbn [bind].
+    destruct (Z.leb f0 (Z.of_nat (length l))) eqn:E0; [|lia].
+    destruct (Z.leb f1 (Z.of_nat (length l))) eqn:E1; [reflexivity|lia].
+  - destruct (Z.gtb (Z.of_nat (length l)) 255) eqn:E; [lia|]. cbn [bind].
+    destruct (Z.leb f0 (Z.of_nat (length l))) eqn:E0; [|reflexivity].
+    destruct (Z.leb f1 (Z.of_nat (length l))) eqn:E1; [lia|reflexivity].
+Qed.
+
+Lemma store_mem_too_long_iff f0 f1 l :
+  store_mem f0 f1 l = Err STRING_TOO_LONG <-> (255 < length l)%nat.
+Proof.
+  destruct (store_mem_spec f0 f1 l) as [H1 [H2 H3]]. split; [|exact H1].
+  intros H. destruct (le_lt_dec (length l) 255) as [L|L]; [|exact L]. exfalso.
+  assert (C : (f0 <= zlen l /\ f1 <= zlen l) \/ (zlen l < f0 \/ zlen l < f1)) by lia.
+  destruct C as [[C0 C1]|C].
+  - rewrite (H2 L C0 C1) in H. discriminate.
+  - rewrite (H3 L C) in H. discriminate.
+Qed.
+
+Lemma store_mem_oss_iff f0 f1 l :
+  store_mem f0 f1 l = Err OUT_OF_STRING_SPACE <-> (length l <= 255)%nat /\ f0 <= zlen l /\ f1 <= zlen l.
+Proof.
+  destruct (store_mem_spec f0 f1 l) as [H1 [H2 H3]]. split.
+  - intros H. destruct (le_lt_dec (length l) 255) as [L|L].
+    + assert (C : (f0 <= zlen l /\ f1 <= zlen l) \/ (zlen l < f0 \/ zlen l < f1)) by lia.
+      destruct C as [C|C]; [tauto|]. rewrite (H3 L C) in H. discriminate.
+    + rewrite (H1 L) in H. discriminate.
+  - intros [L [C0 C1]]. exact (H2 L C0 C1).
+Qed.
+
+Lemma store_mem_plenty f0 f1 l : 255 < f0 -> store_mem f0 f1 l = from_str l.
+Proof.
+  intros H. destruct (store_mem_spec f0 f1 l) as [H1 [H2 H3]].
+  destruct (le_lt_dec (length l) 255) as [L|L].
+  - rewrite from_str_ok by exact L. apply H3; [exact L|]. unfold zlen. lia.
+  - rewrite from_str_err by exact L. apply H1. exact L.
+Qed.
